@@ -83,7 +83,7 @@ def znormalizeSpeakerData(
         stdDevVal = statistics.stdev(featValuesNoZeroes)
 
         featValues = [
-            (val - meanVal) / stdDevVal if val > 0 else 0 for val in featValues
+            (val - meanVal) / stdDevVal if val != 0 else 0 for val in featValues
         ]
 
     if len(featureTimeList) != len(featValues):
